@@ -543,7 +543,11 @@ func (ns *normState) buildInline(s *inlSite, mode string) (pre string, block str
 	if len(body.List) > 0 {
 		last = body.List[len(body.List)-1]
 	}
+	branchUsed := map[string]bool{}
 	needLabel := false
+	if mode == "branch" {
+		temps = []string{"T" + suffix, "F" + suffix, "E" + suffix}
+	}
 	for _, r := range rets {
 		if ast.Stmt(r) != last {
 			needLabel = true
@@ -574,6 +578,18 @@ func (ns *normState) buildInline(s *inlSite, mode string) (pre string, block str
 		}
 		var text string
 		switch mode {
+		case "branch":
+			switch strings.TrimSpace(vals) {
+			case "true":
+				text = "goto T" + suffix
+				branchUsed["T"] = true
+			case "false":
+				text = "goto F" + suffix
+				branchUsed["F"] = true
+			default:
+				text = "if " + vals + " {\ngoto T" + suffix + "\n}\ngoto F" + suffix
+				branchUsed["T"], branchUsed["F"] = true, true
+			}
 		case "return":
 			if vals == "" {
 				text = "return"
@@ -627,6 +643,16 @@ func (ns *normState) buildInline(s *inlSite, mode string) (pre string, block str
 		eds = append(kept, posEdit{r.Pos(), r.End(), text})
 	}
 	inner := ns.render(body.Lbrace+1, body.Rbrace, eds)
+	if mode == "branch" {
+		if !branchUsed["T"] {
+			temps[0] = ""
+		}
+		if !branchUsed["F"] {
+			temps[1] = ""
+		}
+		b.WriteString(inner + "\n}")
+		return pre, b.String(), temps, true
+	}
 	if needLabel && mode != "return" {
 		b.WriteString(label + ":\nswitch {\ndefault:\n" + inner + "\n}\n")
 	} else {
@@ -1009,6 +1035,74 @@ func (ns *normState) tryIf(pk *packages.Package, file *ast.File, x *ast.IfStmt, 
 		text := "{\n" + ns.srcText(x.Init.Pos(), x.Init.End()) + "\n" + pre + blk + "\n" + rest(cond) + "\n}"
 		record(s, x, text, need)
 		return
+	}
+	// if f(a) { A } else { B } with a boolean helper: every return of f jumps straight to A or B
+	{
+		cond := x.Cond
+		neg := false
+		for {
+			if pe, ok := cond.(*ast.ParenExpr); ok {
+				cond = pe.X
+				continue
+			}
+			if ue, ok := cond.(*ast.UnaryExpr); ok && ue.Op == token.NOT {
+				cond = ue.X
+				neg = !neg
+				continue
+			}
+			break
+		}
+		if ce, ok := cond.(*ast.CallExpr); ok {
+			if c := ns.calleeOf(pk, ce, callees); c != nil && numResults(c) == 1 {
+				if bt, isB := c.fn.Type().(*types.Signature).Results().At(0).Type().Underlying().(*types.Basic); isB && bt.Kind() == types.Bool {
+					s := &inlSite{ce, c, pk, file}
+					need, ok := ns.freeNamesOK(s)
+					if !ok {
+						return
+					}
+					_, blk, labels, ok := ns.buildInline(s, "branch")
+					if !ok {
+						return
+					}
+					thenT := ns.srcText(x.Body.Pos(), x.Body.End())
+					elseT := ""
+					if x.Else != nil {
+						elseT = ns.srcText(x.Else.Pos(), x.Else.End())
+						if _, isIf := x.Else.(*ast.IfStmt); isIf {
+							elseT = "{\n" + elseT + "\n}"
+						}
+					}
+					tLab, fLab, eLab := labels[0], labels[1], labels[2]
+					if neg {
+						thenT, elseT = elseT, thenT
+					}
+					// thenT runs for a true result, elseT for a false one
+					var b strings.Builder
+					b.WriteString("{\n" + blk + "\n")
+					if tLab != "" {
+						b.WriteString(tLab + ":\n")
+						if thenT != "" {
+							b.WriteString(thenT + "\n")
+						}
+						if fLab != "" {
+							b.WriteString("goto " + eLab + "\n")
+						}
+					}
+					if fLab != "" {
+						b.WriteString(fLab + ":\n")
+						if elseT != "" {
+							b.WriteString(elseT + "\n")
+						}
+						if tLab != "" {
+							b.WriteString(eLab + ":\n")
+						}
+					}
+					b.WriteString("}")
+					record(s, x, b.String(), need)
+					return
+				}
+			}
+		}
 	}
 	t := ns.findTarget(pk, x.Cond, callees, false)
 	if t == nil {
